@@ -1,4 +1,4 @@
-\* as coded (StaleFill): TLC must report ReadYourWrites violated (finding #4)
+\* mutant NoNegativeEntry (no remembered absence for a vacant slot), fill repaired: TLC must report ReadYourWrites violated
 SPECIFICATION Spec
 CONSTANTS
   Keys = {k1, k2}
@@ -6,9 +6,9 @@ CONSTANTS
   Clients = {c1, c2}
   MaxBatches = 2
   MaxOps = 3
-  StaleFill = TRUE
+  StaleFill = FALSE
   FillOverwrite = FALSE
-  NoNegativeEntry = FALSE
+  NoNegativeEntry = TRUE
   Gen = FALSE
 SYMMETRY Sym
 VIEW view
